@@ -60,11 +60,7 @@ def run(name, checks):
     st = sh("git -C /repo status --porcelain").stdout.strip()
     assert not st, "/repo not clean: " + st
     r = sh("git -C /repo apply %s/patch.diff" % d)
-    if r.returncode != 0:
-        # the patch was made against an earlier /repo HEAD: merge it
-        r = sh("git -C /repo apply --3way %s/patch.diff" % d)
-        sh("git -C /repo reset -q")
-    assert r.returncode == 0, r.stderr
+    assert r.returncode == 0, "patch does not apply to the current /repo HEAD (rebase it by hand): " + r.stderr
     out = {}
     try:
         for c in checks:
